@@ -51,7 +51,10 @@ def run_daemon(config_text, suffix, ready, signal_after=None, timeout=25.0, args
     """
     run = DaemonRun()
     with tempfile.TemporaryDirectory(prefix="cobald-verif-daemon-") as tmp:
-        cfg = os.path.join(tmp, (config_name or "config") + suffix)
+        # the configuration lives in a directory of its own that is neither the working directory nor on sys.path
+        os.mkdir(os.path.join(tmp, "etc"))
+        os.mkdir(os.path.join(tmp, "cwd"))
+        cfg = os.path.join(tmp, "etc", (config_name or "config") + suffix)
         if config_text is not None:
             with open(cfg, "w") as f:
                 f.write(config_text)
@@ -69,7 +72,7 @@ def run_daemon(config_text, suffix, ready, signal_after=None, timeout=25.0, args
             env["VERIF_DAEMON_INJECT"] = json.dumps(inject)
         t0 = time.monotonic()
         with open(errfile, "w") as err:
-            proc = subprocess.Popen([core.PYTHON, "-m", "cobald.daemon", cfg, *args], env=env, stdout=subprocess.DEVNULL, stderr=err, cwd=tmp)
+            proc = subprocess.Popen([core.PYTHON, "-m", "cobald.daemon", cfg, *args], env=env, stdout=subprocess.DEVNULL, stderr=err, cwd=os.path.join(tmp, "cwd"))
             try:
                 if signal_after is not None:
                     deadline = time.monotonic() + wait_ready
